@@ -141,7 +141,7 @@ func genLiteral(r *hx.Rng) string {
 	switch {
 	case signed && r.Chance(1, 5):
 		text = "-" + text
-	case suffix == "" && r.Chance(1, 30):
+	case signed && r.Chance(1, 25):
 		text = "+" + text
 	}
 	return text
